@@ -140,7 +140,7 @@ def handle_event_internal_contract(world, target):
                Case('handler-raises', when=wf, kind='raise', exc='Exception',
                     post=lambda c: event_effect(c, c.pre, c.post, c.a.sid, c.a.eio_sid, c.a.data, c.a.namespace, c.a.id, names, raised=True)),
                Case('malformed-payload', when=bad, post=conf),
-               Case('malformed-payload.raises', when=bad, kind='raise', exc='Exception', post=conf)],
+               Case('malformed-payload.raises', when=bad, kind='raise', exc='Exception', post=conf, implicit_ok=True)],
         modifies=[DISP, OUT, ('g', 'raw'), CALLS], props=['C05', 'C02'],
         must_fail=lambda c: {'handled:claims-no-ack-ever': c.post.get(*OUT).c['.len'][c.a.eio_sid] == c.pre.get(*OUT).c['.len'][c.a.eio_sid]})
 
@@ -198,7 +198,7 @@ def handle_event_contract(world, target):
                     post=lambda c: {'nothing-invoked': sv_equiv(c.post.get(*DISP), c.pre.get(*DISP)),
                                     'not-answered': sv_equiv(c.post.get(*OUT), c.pre.get(*OUT))}),
                Case('malformed-payload', when=bad, post=conf),
-               Case('malformed-payload.raises', when=bad, kind='raise', exc='Exception', post=conf)],
+               Case('malformed-payload.raises', when=bad, kind='raise', exc='Exception', post=conf, implicit_ok=True)],
         modifies=[DISP, OUT, ('g', 'raw'), CALLS], props=['C05', 'C12'],
         must_fail=lambda c: {'not-connected:claims-a-dispatch': c.post.get(*DISP).c['len'] == c.pre.get(*DISP).c['len'] + 1})
 
